@@ -119,6 +119,25 @@ def check_index_placement(idx: Index, rep: Report):
                text="2-RDM[p, s, q, r] += <a+_p a+_q a_r a_s>",
                what="two-body expectation values land at [p, s, q, r] (chemist order), identically in both implementations",
                reason=f"get_rdm: {pa['rdm2_spin']} ({ua4}), compute_rdms: {pb['twordm']} ({ub4})")
+    # every further store into the spin-orbital tensors must be the Hermitian-conjugate element with the conjugated value
+    for f, arrs in ((a, {"rdm1_spin": "(jele, iele)", "rdm2_spin": "(lele, iele, kele, jele)"}), (b, {"onerdm": "(jele, iele)", "twordm": "(lele, iele, kele, jele)"})):
+        for arr, conj_slice in arrs.items():
+            stores = [n for n in ast.walk(f.node) if isinstance(n, (ast.AugAssign, ast.Assign)) and
+                      isinstance((n.target if isinstance(n, ast.AugAssign) else n.targets[0]), ast.Subscript) and
+                      norm((n.target if isinstance(n, ast.AugAssign) else n.targets[0]).value) == arr]
+            extra = stores[1:]
+            bad = []
+            for st in extra:
+                tgt = st.target if isinstance(st, ast.AugAssign) else st.targets[0]
+                v = norm(st.value)
+                conj = v.startswith(("np.conj(", "np.conjugate(", "numpy.conj(")) or v.endswith((".conjugate()", ".conj()"))
+                if norm(tgt.slice) != conj_slice or not conj:
+                    bad.append(f"{norm(st)}")
+            rep.decide(not bad, rule, f, extra[0] if extra else f.node, text=f"{f.name}: {arr} receives each term's value once ({len(stores)} store(s))",
+                       what="the value measured for a term is written to the element its own indices name; a mirrored element may only be filled with the complex conjugate "
+                            "(<a+_q a_p> = <a+_p a_q>*)",
+                       reason=f"additional store(s) {bad[:2]}: the element of the Hermitian-conjugate term gets the same number instead of its complex conjugate - "
+                              f"the matrices are no longer Hermitian for states with complex amplitudes")
     # spin summation divides every index by two
     for f, names in ((a, {"rdm1_np", "rdm2_np"}), (b, {"onerdm_spinsum", "twordm_spinsum"})):
         pl = _placement(f, names)
